@@ -69,7 +69,12 @@ fn enc_ansi(a: &ansi_term::Style) -> String {
         | (a.is_reverse as u32) << 5
         | (a.is_hidden as u32) << 6
         | (a.is_strikethrough as u32) << 7;
-    format!("{},{},{}", enc_color(a.foreground), enc_color(a.background), attrs)
+    format!(
+        "{},{},{}",
+        enc_color(a.foreground),
+        enc_color(a.background),
+        attrs
+    )
 }
 
 fn dec_ansi(p: &[&str]) -> Result<ansi_term::Style, String> {
@@ -107,7 +112,13 @@ fn enc_style(s: &Style) -> String {
         BoxWithOverline(d) => (6, d),
         BoxWithUnderOverline(d) => (7, d),
     };
-    format!("{},{},{},{}", enc_ansi(&s.ansi_term_style), flags, k, enc_ansi(&d))
+    format!(
+        "{},{},{},{}",
+        enc_ansi(&s.ansi_term_style),
+        flags,
+        k,
+        enc_ansi(&d)
+    )
 }
 
 fn dec_style(f: &str) -> Result<Style, String> {
